@@ -35,7 +35,7 @@ RULE = ("each run generates a redirect graph over 2-8 URLs on up to three hosts 
         "issues 1-3 fetches; results are compared with a walk of the graph. distinct = distinct "
         "(graph shape, max_redirects, result class) signatures; non-trivial = the walk contained "
         "at least one redirect")
-PROBES = ["hop_closed_without_header", "redirect_target_host_in_upper_case", "chain_exactly_max", "chain_longer_than_max", "cycle", "self_loop", "cross_host_hop",
+PROBES = ["overlapping_fetches_with_certificate_rotation", "hop_closed_without_header", "redirect_target_host_in_upper_case", "chain_exactly_max", "chain_longer_than_max", "cycle", "self_loop", "cross_host_hop",
           "grey_target", "non_gemini_target", "cert_changed_on_hop", "cert_swapped_on_later_hop", "overlapping_fetches", "sql_fault_during_fetch", "follow_disabled",
           "max_redirects_zero", "final_after_redirects"]
 COMPONENTS = {
@@ -61,12 +61,18 @@ def run_one(ch):
         h = HOSTS[ch.choose("nhost", 3, [3, 2, 1])]
         nodes.append({"host": h, "path": f"/n{j}", "url": f"gemini://{h}/n{j}"})
     for j, nd in enumerate(nodes):
-        k = ch.choose("nkind", 11, [6, 24, 1, 1, 1, 1, 1, 1, 1, 1, 3])
+        k = ch.choose("nkind", 12, [6, 24, 1, 1, 1, 1, 1, 1, 1, 1, 3, 2])
         if k == 0:
             nd.update(kind="final")
         elif k == 10:
             # the server takes the request and closes without any header
             nd.update(kind="drop")
+        elif k == 11:
+            # ... or closes (cleanly) part-way through a redirect header: no CRLF ever comes,
+            # and what did arrive still looks like a gemini URL
+            t = ch.choose("cuttarget", nn)
+            full = f"3{ch.choose('cutst', 2)} {nodes[t]['url']}"
+            nd.update(kind="drop", cut=full[:len(full) - 1 - ch.choose("cutn", 3)])
         elif k == 1:
             t = ch.choose("target", nn)
             style = ch.choose("tstyle", 4, [5, 1, 1, 1])
@@ -101,8 +107,11 @@ def run_one(ch):
     # some hosts switch to another certificate after their n-th connection
     swap_after = {}
     for h in HOSTS:
-        if not concurrent and ch.chance("swap", 0.2):
+        if ch.chance("swap", 0.2):
             swap_after[h] = 1 + ch.choose("swapn", 3)
+    # overlapping fetches AND a host that changes its certificate: the sequential pin model
+    # does not apply; what is demanded instead is stated below (one certificate per host)
+    rotating = concurrent and bool(swap_after)
     reqlog = []      # every request line any server received
 
     def behaviour(host):
@@ -121,7 +130,8 @@ def run_one(ch):
                 if nd is None:
                     peer.send_app(b"51 no such node\r\n")
                 elif nd["kind"] == "drop":
-                    pass
+                    if nd.get("cut"):
+                        peer.send_app(nd["cut"].encode())
                 elif nd["kind"] == "final":
                     peer.send_app(f"20 text/plain\r\nnode {nd['path']} on {host}\n".encode())
                 else:
@@ -271,6 +281,10 @@ def run_one(ch):
                    request_lines=[r[1][:80] for r in reqs],
                    graph=[(n["url"], n["kind"], n.get("meta", "")[:60]) for n in nodes],
                    pinned_wrong_host=bad_host, cert_swap_after_n_connections=swap_after)
+        if rotating:
+            group_limit_acc.append((max_r + 1) if f["follow"] else 1)
+            sigparts.append(("rotating", got[0]))
+            continue
         if f.get("sqlfault"):
             # under a storage fault only the safety rule is demanded: a hop whose
             # certificate differs from its pin never yields a response
@@ -370,6 +384,20 @@ def run_one(ch):
             st["max_redirects_zero"] = 1
         sigparts.append((v, verdict[2] if len(verdict) > 2 else 0, got[0]))
 
+    if rotating:
+        # every hop is verified against the pin before the request goes out, and pins never
+        # change during these runs: so all connections of one host on which the server was
+        # SENT a request presented one and the same certificate
+        st["overlapping_fetches_with_certificate_rotation"] = 1
+        for h, srv in servers.items():
+            accepted = sorted({p.cert_presented for p in srv.conns if b"\r\n" in bytes(p.rx_plain)})
+            if len(accepted) > 1:
+                res.violate("C16/hop-certificate-not-verified",
+                            f"overlapping fetches: {h} was sent requests on connections presenting "
+                            f"different certificates {accepted} - at most one of them can match the pin",
+                            max_redirects=max_r, swap_after=swap_after,
+                            fetches=[(nodes[f["start"]]["url"], f["follow"], g[:2]) for f, g, *_ in out],
+                            graph=[(n["url"], n["kind"], n.get("meta", "")[:60]) for n in nodes])
     if concurrent:
         st["overlapping_fetches"] = 1
         if out_total.get("n", 0) > sum(group_limit_acc):
